@@ -11,7 +11,7 @@ STARTS = [(2019182, 12), (1970001, 0), (1999365, 23), (2000059, 23), (2000366, 2
           (2000060, 22), (2004366, 22)]
 PAYLOADS = ['ramp', 'zero', 'negzero', 'one', 'denorm', 'tiny', 'huge', 'neg']
 NAMES = ['AVERAGE', 'EMISSIONS', 'AIRQUALITY', 'INSTANT']
-SPECIES = [['O3'], ['O3', 'NO2'], ['O', 'NO2', 'ABCDEFGHIJ'], ['NO', 'NO_2']]
+SPECIES = [['O3'], ['O3', 'NO2'], ['O', 'NO2', 'ABCDEFGHIJ'], ['NO', 'NO_2'], ['O3', 'O', 'NO2', 'NO']]
 SHAPES = [(nx, ny, nz) for nx in (1, 2, 3) for ny in (1, 2, 3) for nz in (1, 2, 3)]
 GRID2 = dict(plon=-100., plat=45., iutm=0, xorg=-24., yorg=12., delx=4., dely=2., iproj=2, istag=0,
              tlat1=30., tlat2=60.)
